@@ -180,7 +180,33 @@ async fn run_case(case: Vec<String>) -> String {
             format!("{} secure={} dest={}", what, tp.secure() as u8, dest)
         }
     };
+    // "a transport and destination pinned in the caller's target info are reused": three requests with one target info
+    // pinned to a transport the endpoint does not know and an address the URI does not name
+    let pin_wire: WireLog = Default::default();
+    let mut pm = MockTp::udp(pin_wire.clone(), clock.0);
+    pm.secure = u[0] == "1";
+    pm.name = if pm.secure { "DTLS" } else { "UDP" };
+    pm.bound = "10.0.0.77:7777".parse().unwrap();
+    let pin_tp = TpHandle::new(pm);
+    let pin_dest: SocketAddr = "192.0.2.50:7000".parse().unwrap();
+    let mut target = sip_core::transport::TargetTransportInfo { via_host_port: None, transport: Some((pin_tp.clone(), pin_dest)) };
+    let mut pins: Vec<String> = vec![];
+    for k in 0..3 {
+        let text = format!(
+            "OPTIONS {} SIP/2.0\r\nFrom: <sip:al@example.org>;tag=ft1\r\nTo: <sip:bob@example.org>\r\nCall-ID: pin-{}\r\nCSeq: {} OPTIONS\r\nMax-Forwards: 70\r\nContent-Length: 0\r\n\r\n",
+            uri_text, k, k + 1
+        );
+        let req = crate::tsx_client::request_from_text(&endpoint, text.as_bytes());
+        match endpoint.create_outgoing(req, &mut target).await {
+            Ok(mut o) => {
+                let _ = endpoint.send_outgoing_request(&mut o).await;
+                pins.push(format!("{}>{}", o.parts.transport.bound(), o.parts.destination));
+            }
+            Err(_) => pins.push("ERR".into()),
+        }
+    }
+    let pinned_ok = pins.iter().all(|p| *p == format!("{}>{}", pin_tp.bound(), pin_dest)) && pin_wire.lock().len() == 3 && pin_wire.lock().iter().all(|w| w.1 == pin_dest);
     drop(held);
     drop(inbound_keep);
-    format!("{} asked={}", out, asked.join(","))
+    format!("{} asked={}\tpin={}", out, asked.join(","), if pinned_ok { "ok".to_string() } else { pins.join(",") })
 }
